@@ -336,7 +336,8 @@ CLAIMED = {
               "the core, regions are pairwise disjoint, exactly one free space remains and the rodded bounds enclose exactly it "
               "(heights + rodded span = core length); inverted, zero-height, overlapping, out-of-core and core-filling layouts are "
               "rejected wherever they stand in the list - tied to the real check_unrodded_regions bit for bit (verdict, error kind, "
-              "rodded bounds) on generated layouts.  Fuel pellets (Model/AcceptFuel.lean, Props/C18Fuel.lean): acceptance implies the gap "
+              "rodded bounds) on generated layouts; checkRegionsFull adds the attribute tests that come first (positive coolant "
+              "fraction, existing model name: c18_regions_full_accept, c18_regions_reject_no_coolant / _unknown_model), tied the same way.  Fuel pellets (Model/AcceptFuel.lean, Props/C18Fuel.lean): acceptance implies the gap "
               "that is USED (standard or legacy key) leaves room for a pellet, radial zones of positive thickness inside the "
               "pellet, porosities and weight fractions in range, a finite positive porosity correction; tied to the real "
               "check_fuel_model (verdict and error kind).  Position numbering (Model/Assignment.lean, Props/C18Assignment.lean): the index "
